@@ -150,5 +150,24 @@ func equalExact(a, b ev) bool {
 	return x.Cmp(y) == 0
 }
 
-func TestC10(t *testing.T)       { core.Run(t, "C10", gen, check) }
-func TestC10Replay(t *testing.T) { core.Replay(t, "C10", check) }
+func TestC10(t *testing.T)       { core.Run(t, "C10", gen, checkDiff) }
+func TestC10Replay(t *testing.T) { core.Replay(t, "C10", checkDiff) }
+
+// checkDiff: after the model, QuoInteger and Rem are compared with divide_int and remainder of
+// Python's decimal module (libmpdec).
+func checkDiff(c arith.Case, st *core.Stats) error {
+	if err := check(c, st); err != nil {
+		return err
+	}
+	if c.Y.IsZero() {
+		c.Y.Coeff = "3"
+	}
+	for _, op := range []string{"quointeger", "rem"} {
+		cc := c
+		cc.Op = op
+		if err := arith.DiffExec(cc, arith.DiffOpts{Value: true, Flags: true}, 2, st); err != nil {
+			return err
+		}
+	}
+	return nil
+}
